@@ -236,7 +236,145 @@ func protoGroups() []string {
 	for i := 0; i < n; i += pchunk {
 		g = append(g, fmt.Sprintf("proto/pairs/%d-%d", i, i+pchunk))
 	}
-	return g
+	return append(g, "proto/recursive")
+}
+
+// ---- recursive message types: Rec{v, repeated Rec kids, s} cut to itself, to RecT without v, to RecT without s.
+// A repeated message field that is LAST in its message is followed, in the parent, by the next element of the
+// parent's own list: the same tag right behind the end of the sub-message.
+
+func recProgram(drop string) *pj.Program {
+	rec := func(name, self string, drop string) *pj.Msg {
+		var fs []*pj.Field
+		if drop != "v" {
+			fs = append(fs, pj.F("v", 1, pj.Int32))
+		}
+		fs = append(fs, pj.FM("kids", 2, self).Repeated())
+		if drop != "s" {
+			fs = append(fs, pj.F("s", 3, pj.String))
+		}
+		return &pj.Msg{Name: name, Fields: fs}
+	}
+	msgs := []*pj.Msg{rec("Rec", "Rec", ""), rec("RecT", "RecT", drop),
+		{Name: "From", Fields: []*pj.Field{pj.FM("r", 1, "Rec"), pj.FM("rs", 2, "Rec").Repeated(), pj.F("tail", 3, pj.Int32)}},
+		{Name: "To", Fields: []*pj.Field{pj.FM("r", 1, "RecT"), pj.FM("rs", 2, "RecT").Repeated(), pj.F("tail", 3, pj.Int32)}}}
+	out := "To"
+	if drop == "" {
+		out = "From"
+	}
+	f := &pj.File{Path: "main.proto", Pkg: pj.Pkg, Msgs: msgs, Svcs: []*pj.Service{pj.OneMethodService("From", out)}}
+	return &pj.Program{Name: "c11/recursive/drop=" + drop, Main: "main.proto", Files: []*pj.File{f}}
+}
+
+// recTree: shape codes - a Rec is written as a list of child shapes; leaf = nil. v and s are set from a counter
+// (s only on every second node, so that lists are sometimes the last field of their message and sometimes not).
+type recShape []recShape
+
+func buildRec(md protoreflect.MessageDescriptor, sh recShape, ctr *int, withS bool) protoreflect.Message {
+	m := dynamicpb.NewMessage(md)
+	*ctr++
+	k := *ctr
+	m.Set(md.Fields().ByName("v"), protoreflect.ValueOfInt32(int32(k)))
+	l := m.Mutable(md.Fields().ByName("kids")).List()
+	for _, c := range sh {
+		l.Append(protoreflect.ValueOfMessage(buildRec(md, c, ctr, withS)))
+	}
+	if withS && k%2 == 0 {
+		m.Set(md.Fields().ByName("s"), protoreflect.ValueOfString(fmt.Sprintf("s%d", k)))
+	}
+	return m
+}
+
+func recShapes() []recShape {
+	leaf := recShape(nil)
+	one := recShape{leaf}
+	return []recShape{
+		leaf, one, {leaf, leaf}, {one, leaf}, {leaf, one}, {one, one}, {{one}, leaf}, {{one, leaf}, leaf, one},
+		{{{one}}}, {{one, one}, {leaf, leaf}, leaf},
+	}
+}
+
+func protoRecursive(yield func(core.Case) bool) {
+	for _, drop := range []string{"", "v", "s"} {
+		for si, sh := range recShapes() {
+			for _, withS := range []bool{false, true} {
+				drop, si, sh, withS := drop, si, sh, withS
+				c := core.Case{Tag: "proto,recursive",
+					Desc: func() interface{} {
+						return pcdesc{fmt.Sprintf("recursive drop=%q shape %d withS=%v", drop, si, withS), 0, 0, recProgram(drop).SourceDump()}
+					},
+					Run: func() core.Result { return runRec(drop, si, sh, withS) }}
+				if !yield(c) {
+					return
+				}
+			}
+		}
+	}
+}
+
+func runRec(drop string, si int, sh recShape, withS bool) core.Result {
+	r := core.Result{Class: "ok", Key: fmt.Sprintf("proto|recursive|%s|%d|%v", drop, si, withS)}
+	c := pj.Compile(recProgram(drop))
+	if c.Err != nil {
+		r.Add("harness|proto-desc|error", "dynamicgo rejects the recursive schema: %v", c.Err)
+		return r
+	}
+	fromMD := c.Ref.Msg(pj.Pkg + ".From")
+	toMD := fromMD
+	if drop != "" {
+		toMD = c.Ref.Msg(pj.Pkg + ".To")
+	}
+	recMD := fromMD.Fields().ByName("r").Message()
+	ctr := 0
+	src := dynamicpb.NewMessage(fromMD)
+	src.Set(fromMD.Fields().ByName("r"), protoreflect.ValueOfMessage(buildRec(recMD, sh, &ctr, withS)))
+	rs := src.Mutable(fromMD.Fields().ByName("rs")).List()
+	rs.Append(protoreflect.ValueOfMessage(buildRec(recMD, sh, &ctr, withS)))
+	rs.Append(protoreflect.ValueOfMessage(buildRec(recMD, recShape{nil}, &ctr, withS)))
+	if withS {
+		src.Set(fromMD.Fields().ByName("tail"), protoreflect.ValueOfInt32(9))
+	}
+	in := pj.Marshal(src)
+	want := projectPB(src, toMD)
+	trig := "proto,recursive,drop=" + drop
+	for _, native := range []bool{false, true} {
+		for _, disallow := range []bool{false, true} {
+			what := fmt.Sprintf("recursive drop=%q shape %d withS=%v opts={native:%v disallowUnknown:%v}", drop, si, withS, native, disallow)
+			var out []byte
+			var err error
+			pi := core.Catch(func() {
+				v := pgeneric.NewRootValue(c.In, append([]byte{}, in...))
+				out, err = v.MarshalTo(c.Out, &pgeneric.Options{UseNativeSkip: native, DisallowUnknown: disallow})
+			})
+			switch {
+			case pi != nil:
+				r.Add("proto.Value.MarshalTo|"+trig+"|panic@"+pi.Site+":"+core.PanicClass(pi.Val), "%s: panic %s\n%s", what, pi.Val, pi.Stack)
+			case err != nil:
+				if !(disallow && drop != "") {
+					r.Add("proto.Value.MarshalTo|"+trig+"|error", "%s: unexpected error %v", what, err)
+				}
+			default:
+				got, derr := pj.Unmarshal(toMD, out)
+				if derr != nil {
+					r.Add("proto.Value.MarshalTo|"+trig+"|malformed", "%s: output %x rejected by the reference implementation: %v", what, out, derr)
+					break
+				}
+				if hasUnknown(got) {
+					r.Add("proto.Value.MarshalTo|"+trig+"|unknown-fields-kept", "%s: output carries fields that are not in the target schema: %x", what, out)
+					break
+				}
+				if d := pj.DiffMsg(want, got, "$"); d != "" {
+					r.Add("proto.Value.MarshalTo|"+trig+"|value-differs", "%s: %s\nin  %x\nout %x", what, d, in, out)
+				}
+			}
+		}
+	}
+	if len(r.Viol) > 0 {
+		r.Class = "violation"
+	} else {
+		r.Class = "ok:proto-recursive"
+	}
+	return r
 }
 
 type pcdesc struct {
@@ -247,6 +385,10 @@ type pcdesc struct {
 }
 
 func protoEnumerate(group int, yield func(core.Case) bool) {
+	if group == len(protoGroups())-1 {
+		protoRecursive(yield)
+		return
+	}
 	es := pedits()
 	lo, hi := group*pchunk, group*pchunk+pchunk
 	if hi > len(es) {
